@@ -496,7 +496,7 @@ fn exec_vault_path(w: &mut World, h: &VH, path: &str) -> TxResult {
         "withdraw_direct_msg" => w.exec(ALICE, &h.vault, &white_whale_std::vault_network::vault::ExecuteMsg::Withdraw {}, &[]),
         "flash_loan_direct" => crate::scn_vault::direct_loan(w, h, &h.root.fees, 100_000, &[Step::Repay(RepayKind::Exact)]),
         "deposit_from_inside_a_loan_callback" => crate::scn_vault::direct_loan(w, h, &h.root.fees, 100_000, &[Step::Deposit(1000), Step::Repay(RepayKind::Exact)]),
-        "withdraw_from_inside_a_loan_callback" => crate::scn_vault::direct_loan(w, h, &h.root.fees, 100_000, &[Step::WithdrawShares(1000), Step::Repay(RepayKind::Exact)]),
+        "withdraw_from_inside_a_loan_callback" => crate::scn_vault::direct_loan(w, h, &h.root.fees, 100_000, &[Step::WithdrawShares(1000), Step::Repay(RepayKind::Double)]), // (the generous repayment also covers what the withdrawal took out)
         _ => {
             let amount = 100_000u128;
             let f = &h.root.fees;
@@ -549,7 +549,8 @@ fn check_vault(cw20: bool, liquidity: bool, cx: &mut Cx, cases: &mut Vec<Value>)
         let toggled = w.snapshot();
         for (pi, (p, ti)) in paths.iter().enumerate() {
             w.restore(&toggled);
-            let enabled = [t.0, t.1, t.2][*ti];
+            // a path that runs inside a loan callback invokes two operations: the flash loan and the deposit / withdrawal
+            let enabled = [t.0, t.1, t.2][*ti] && (!p.ends_with("_from_inside_a_loan_callback") || t.0);
             let before = w.kv_clone();
             let b0 = vault_observe(&w, &h);
             let r = exec_vault_path(&mut w, &h, p);
